@@ -20,6 +20,8 @@ CONSTANTS Ctx <- McCtx
  BGL = {40000, 45000, 90000, 125000, 150000, 175000}
  BoxFrom = {"a1"}
  BoxTo = {"a1", "a2"}
+ BoxSeqs = {}
+ SpendFrom = {}
  RewFrom = {}
  RewTerms = {}
  RewAmt = {}
